@@ -41,6 +41,7 @@ class Ctx:
         self.depth = depth
         self.results = []
         self.floors = []
+        self.errors = []
         self._graphs = {}
         self._groups_done = set()
         self.stats = {'graphs': 0, 'nodes': 0, 'insts': 0, 'call_sites': 0}
@@ -59,6 +60,19 @@ class Ctx:
         self.floors.append({'rule': rule, 'found': found, 'floor': expected, 'what': what})
         if found < expected:
             raise CheckError('floor not met for %s: found %d < %d (%s)' % (rule, found, expected, what))
+
+    def step(self, fn, *args):
+        """run one rule function; an anchor / floor failure inside it is recorded and the remaining rules still
+        run (a violation found elsewhere is reported; without one the check ends as CHECK-ERROR)"""
+        import traceback
+        try:
+            return fn(*args)
+        except CheckError as e:
+            self.errors.append('%s: %s' % (getattr(fn, '__name__', '?'), e))
+        except (KeyError, IndexError, TypeError, ValueError, AttributeError) as e:
+            self.errors.append('%s: internal %s: %s | %s' % (getattr(fn, '__name__', '?'), type(e).__name__, e,
+                                                          ' <- '.join(l.strip() for l in traceback.format_exc().split('\n')[-6:-1])))
+        return None
 
     # ---- graphs
     def graph(self, root, flavour=None, depth=None, inline_filter=None, tag=None):
@@ -83,6 +97,40 @@ class Ctx:
         return self.F.one_fn(regex)
 
 
+class Test:
+    __slots__ = ('sid', 'rel', 'a', 'b', 'true', 'false')
+
+    def __init__(self, sid, rel, a, b, true, false):
+        self.sid, self.rel, self.a, self.b, self.true, self.false = sid, rel, a, b, list(true), list(false)
+
+
+def is_const(e, v=None):
+    """expression is a literal (equal to v when given)"""
+    if e[0] != 'c':
+        return False
+    return v is None or str(e[1]) == str(v)
+
+
+def norm_rel(g, e):
+    """value-level twin of GX.tests: a boolean expression as (rel, a, b, holds) with rel in Eq / Lt / Le,
+    `holds` False when the expression is the negation of the relation; None if it is no comparison"""
+    e = g.strip(e)
+    neg = False
+    while e[0] == 'un' and e[1] == 'Not':
+        e = g.strip(e[2])
+        neg = not neg
+    if e[0] != 'bin' or e[1] not in ('Eq', 'Ne', 'Lt', 'Le', 'Gt', 'Ge'):
+        return None
+    op, a, b = e[1], g.strip(e[2]), g.strip(e[3])
+    if op == 'Ne':
+        op, neg = 'Eq', not neg
+    elif op == 'Gt':
+        op, a, b = 'Lt', b, a
+    elif op == 'Ge':
+        op, a, b = 'Le', b, a
+    return (op, a, b, not neg)
+
+
 class GX:
     """per-graph derived tables (attached to the graph as g.x)"""
 
@@ -92,6 +140,7 @@ class GX:
         self.atoms = {a.nid: a for a in atomic_events(g)}
         self.fences = fences(g)
         self.by_site = {}
+        self._tests = {}
         for n in g.nodes:
             if n.id in g.live():
                 self.by_site.setdefault(self.site(n.id), []).append(n.id)
@@ -110,6 +159,93 @@ class GX:
         for n in nids:
             out.update(self.same_site(n))
         return out
+
+    # ---- normalised tests.  Rules never look at the syntactic form of a condition: `a == b`,
+    # `a != b`, `!(a == b)`, `match a { b => .., _ => .. }` and the operand order all become the
+    # same record, so rewriting a test in another form cannot change a verdict.
+    def tests(self, rels=('Eq',)):
+        """-> list of Test(sid, rel, a, b, true, false): switch `sid` decides `a rel b` (rel in Eq / Lt / Le,
+        operands stripped); `true` / `false` are the edge nodes taken when the relation holds / does not."""
+        key = tuple(rels)
+        if key in self._tests:
+            return self._tests[key]
+        g = self.g
+        out = []
+        for sid in self.switches():
+            e = g.strip(g.switch_expr(sid))
+            neg = False
+            while e[0] == 'un' and e[1] == 'Not':
+                e = g.strip(e[2])
+                neg = not neg
+            if e[0] == 'bin' and e[1] in ('Eq', 'Ne', 'Lt', 'Le', 'Gt', 'Ge'):
+                op, a, b = e[1], g.strip(e[2]), g.strip(e[3])
+                if op == 'Ne':
+                    op, neg = 'Eq', not neg
+                elif op == 'Gt':
+                    op, a, b = 'Lt', b, a
+                elif op == 'Ge':
+                    op, a, b = 'Le', b, a
+                t, f = self.switch_edges(sid, 'nonzero'), self.switch_edges(sid, 'zero')
+                if neg:
+                    t, f = f, t
+                if op in rels:
+                    out.append(Test(sid, op, a, b, t, f))
+                # a < b  ==  !(b <= a): offer the complementary form too so that a rule asking for one finds both
+                comp = {'Lt': 'Le', 'Le': 'Lt'}.get(op)
+                if comp and comp in rels and op not in rels:
+                    out.append(Test(sid, comp, b, a, f, t))
+            elif 'Eq' in rels:
+                # switch on the value itself: one equality test per listed value
+                vals = {}
+                other = []
+                for sib in g.members(sid):
+                    for eid in g.nodes[sib].succs:
+                        sw, v, oth = g.nodes[eid].edge
+                        if v is None:
+                            other.append(eid)
+                        else:
+                            vals.setdefault(str(v), []).append(eid)
+                alle = [x for v in vals.values() for x in v] + other
+                for v, es in sorted(vals.items()):
+                    t, f = es, [x for x in alle if x not in es]
+                    if neg:
+                        t, f = f, t
+                    out.append(Test(sid, 'Eq', e, ('c', int(v) if v.lstrip('-').isdigit() else v, None), t, f))
+        self._tests[key] = out
+        return out
+
+    def zero_tests(self, pred, within=None):
+        """edges on which an (unsigned) expression satisfying pred is known to be zero / non-zero:
+        e == 0, e < 1, e <= 0, 0 < e, in any syntactic form.  -> (zero_edges, nonzero_edges, [(sid, zero, nonzero)])"""
+        hit = []
+        for t in self.tests(('Eq',)):
+            for a, b in ((t.a, t.b), (t.b, t.a)):
+                if is_const(b, 0) and pred(a):
+                    hit.append((t.sid, t.true, t.false))
+                    break
+        for t in self.tests(('Lt',)):
+            if is_const(t.b, 1) and pred(t.a):          # e < 1
+                hit.append((t.sid, t.true, t.false))
+            elif is_const(t.a, 0) and pred(t.b):        # 0 < e
+                hit.append((t.sid, t.false, t.true))
+        if within is not None:
+            hit = [h for h in hit if h[0] in within]
+        z, nz = set(), set()
+        for _sid, a, b in hit:
+            z.update(a)
+            nz.update(b)
+        return z, nz, hit
+
+    def eq_tests(self, pred):
+        """edges (true, false) of every equality test whose operands satisfy pred(a, b) in either order"""
+        t, f = set(), set()
+        hit = []
+        for x in self.tests(('Eq',)):
+            if pred(x.a, x.b) or pred(x.b, x.a):
+                t.update(x.true)
+                f.update(x.false)
+                hit.append(x)
+        return t, f, hit
 
     # ---- event lookup
     def rep(self, nid):
